@@ -2,6 +2,7 @@ package rules
 
 import (
 	"go/token"
+	"go/types"
 	"strings"
 
 	"golang.org/x/tools/go/ssa"
@@ -23,7 +24,86 @@ func c30(x *Ctx) {
 	c.Explanation = "C30 (liveness and readiness follow subsystem reports): decides the bookkeeping the property rests on – Register starts a subsystem unready with a 'not yet reported' (negative) counter; a report from a registered subsystem records the ready flag, re-arms the counter from the subsystem's own timeout and marks it alive, on every path; a report from a subsystem that has unregistered (or never registered) changes nothing; Unregister leaves a permanent 'not ready' entry and nothing ever deletes from the readiness map; the ticker decrements by exactly the ticker's own period, only positive counters, and clamps at zero; checkAlive answers false exactly on a zero counter; checkReady answers false when nobody registered, when any counter is not positive, and when any recorded flag is false; the /alive and /ready handlers answer 503 exactly when the health object says no."
 	c.NotCovered = "the timing clause itself (a report interval shorter than timeout − tick is never dead, longer than timeout + tick is dead) – it quantifies over report schedules against a clock; the values of the timeouts subsystems register with."
 	const pkg = "internal/health"
-	fld := func(n string) func(eng.FieldRef) bool { return eng.FieldIs(pkg, "Health", n) }
+	// The four maps of Health are identified by what the code does with them, not by their names (a rename of an
+	// unexported field must not change the verdict):
+	//   timeouts – map[string]Duration that Register fills from its Duration parameter
+	//   timeLeft – the other map[string]Duration (the counters)
+	//   readies  – map[string]bool that Ready fills from its bool parameter
+	//   alives   – the other map[string]bool
+	role := map[string]string{}
+	if hn := x.P.Named(pkg, "Health"); hn != nil {
+		if st, ok := hn.Underlying().(*types.Struct); ok {
+			var durMaps, boolMaps []string
+			for i := 0; i < st.NumFields(); i++ {
+				if m, ok := st.Field(i).Type().Underlying().(*types.Map); ok {
+					switch m.Elem().String() {
+					case "time.Duration":
+						durMaps = append(durMaps, st.Field(i).Name())
+					case "bool":
+						boolMaps = append(boolMaps, st.Field(i).Name())
+					}
+				}
+			}
+			fromParam := func(fn string, names []string) string {
+				f := x.P.Func(pkg, "Health", fn)
+				found := ""
+				if f == nil {
+					return ""
+				}
+				eng.Instrs(f, func(in ssa.Instruction) {
+					mu, ok := in.(*ssa.MapUpdate)
+					if !ok {
+						return
+					}
+					if _, isP := mu.Value.(*ssa.Parameter); !isP {
+						return
+					}
+					for _, n := range names {
+						if loadsField(mu.Map, eng.FieldIs(pkg, "Health", n)) {
+							found = n
+						}
+					}
+				})
+				return found
+			}
+			other := func(names []string, not string) string {
+				if len(names) == 2 && not != "" {
+					if names[0] == not {
+						return names[1]
+					}
+					return names[0]
+				}
+				return ""
+			}
+			role["timeouts"] = fromParam("Register", durMaps)
+			role["timeLeft"] = other(durMaps, role["timeouts"])
+			// readies: the bool map Register initialises (alives is first written by a report), else the one Ready fills from its flag
+			if f := x.P.Func(pkg, "Health", "Register"); f != nil {
+				eng.Instrs(f, func(in ssa.Instruction) {
+					if mu, ok := in.(*ssa.MapUpdate); ok {
+						for _, n := range boolMaps {
+							if loadsField(mu.Map, eng.FieldIs(pkg, "Health", n)) {
+								role["readies"] = n
+							}
+						}
+					}
+				})
+			}
+			if role["readies"] == "" {
+				role["readies"] = fromParam("Ready", boolMaps)
+			}
+			role["alives"] = other(boolMaps, role["readies"])
+		}
+	}
+	for _, r := range []string{"timeouts", "timeLeft", "readies", "alives"} {
+		if role[r] == "" {
+			c.Unresolved("C30.anchors", "Health."+r, "cannot identify the health map that plays the role of "+r+" (two map[string]time.Duration and two map[string]bool fields, told apart by what Register and Ready store in them)")
+		}
+	}
+	if len(c.Obs) > 0 {
+		return
+	}
+	fld := func(n string) func(eng.FieldRef) bool { return eng.FieldIs(pkg, "Health", role[n]) }
 	isUpd := func(in ssa.Instruction, f string) (*ssa.MapUpdate, bool) {
 		mu, ok := in.(*ssa.MapUpdate)
 		if !ok || !loadsField(mu.Map, fld(f)) {
